@@ -564,6 +564,83 @@ func init() {
 		}, nil
 	})
 
+	// faulted kind where s P: a call that cannot complete (a nil or zero-value operand somewhere in its arguments, a
+	// nil receiver, lists of different lengths), recovered by the caller, as callers with a top-level recover
+	// do.  What is observable afterwards - whether the call panicked, whether the receiver it was given is
+	// (still) unusable or holds a point, and what the next, ordinary call returns - is behaviour like any
+	// other, and the builds must agree on it.
+	//   kind 0/1 MultiScalarMult / ...Vartime, element `where` of the scalar list nil
+	//   kind 2/3 the same with element `where` of the point list a zero-value Point
+	//   kind 4   ScalarMult with a zero-value point        kind 5 ScalarMult on a nil receiver
+	//   kind 6/7 MultiScalarMult / ...Vartime with one scalar too many
+	register("faulted", func(args [][]byte) (func() func() [][]byte, error) {
+		if err := need(args, 4); err != nil {
+			return nil, err
+		}
+		if len(args[0]) != 1 || len(args[1]) != 1 {
+			return nil, fmt.Errorf("bad argument sizes")
+		}
+		kind, where := int(args[0][0]), int(args[1][0])%3
+		s, err := sc(args[2])
+		if err != nil {
+			return nil, err
+		}
+		p, err := pt(args[3])
+		if err != nil {
+			return nil, err
+		}
+		var r *secp256k1.Point
+		switch rcvMode {
+		case 0:
+			r = new(secp256k1.Point) // never initialised: must still be unusable afterwards
+		default:
+			r = newRcvr()
+		}
+		return func() func() [][]byte {
+			scalars := []*secp256k1.Scalar{secp256k1.NewScalarFrom(s), secp256k1.NewScalarFrom(s), secp256k1.NewScalarFrom(s)}
+			points := []*secp256k1.Point{secp256k1.NewPointFrom(p), secp256k1.NewGeneratorPoint(), secp256k1.NewPointFrom(p)}
+			panicked := byte(0)
+			func() {
+				defer func() {
+					if recover() != nil {
+						panicked = 1
+					}
+				}()
+				switch kind {
+				case 0, 1:
+					scalars[where] = nil
+				case 2, 3:
+					points[where] = new(secp256k1.Point)
+				case 6, 7:
+					scalars = append(scalars, secp256k1.NewScalarFrom(s))
+				}
+				switch kind {
+				case 0, 2, 6:
+					r.MultiScalarMult(scalars, points)
+				case 1, 3, 7:
+					r.MultiScalarMultVartime(scalars, points)
+				case 4:
+					r.ScalarMult(s, new(secp256k1.Point))
+				default:
+					var nilRcvr *secp256k1.Point
+					nilRcvr.ScalarMult(s, p)
+				}
+			}()
+			return func() [][]byte {
+				after := []byte("unusable")
+				func() {
+					defer func() { _ = recover() }()
+					after = secp256k1.NewIdentityPoint().Add(r, secp256k1.NewGeneratorPoint()).CompressedBytes()
+				}()
+				// and the next ordinary calls
+				next := secp256k1.NewIdentityPoint().ScalarMult(s, p)
+				next2 := secp256k1.NewIdentityPoint().MultiScalarMult([]*secp256k1.Scalar{s, s}, []*secp256k1.Point{p, secp256k1.NewGeneratorPoint()})
+				next3 := secp256k1.NewIdentityPoint().DoubleScalarMultBasepointVartime(s, s, p)
+				return [][]byte{{panicked}, after, next.CompressedBytes(), next2.CompressedBytes(), next3.CompressedBytes()}
+			}
+		}, nil
+	})
+
 	// ---- hash to curve ----
 	register("h2c", func(args [][]byte) (func() func() [][]byte, error) { // ro? dst msg
 		if err := need(args, 3); err != nil {
